@@ -29,6 +29,7 @@ class LockEngine(Engine):
         self.origin = {}          # pointer symbol base -> set of address Ptrs it was loaded from
         self.callsite = {}        # 'ret:fn:inst' -> callee name
         self.callargs = {}
+        self.track_writes = ()
         Engine.__init__(self, mod, [], opaque={}, inline_filter=self._inline)
         self.wrappers = util.cas_wrappers(mod)
     def memoizable(self, callee):
@@ -174,6 +175,8 @@ class LockEngine(Engine):
     def note_access(self, st, inst, p, kind):
         if not isinstance(p, Ptr):
             return
+        if kind in ('store', 'cas') and p.base.startswith('arg:') and self.track_writes:
+            st.ghost[('wrote', p.base)] = 1          # C19.R3: an object that existed before the call has been modified on this path
         if st.ghost.get(('freed', p.base)):
             self.record(Record('uaf', inst, st, ptr=p, access=kind, entry=self.entry_name), ('uaf', inst.fn.name, inst.id, st.stack()))
         if p.path and p.path[-1][0] == 'f' and p.path[-1][1].startswith(self.watch_prefixes):
